@@ -22,8 +22,8 @@ type gen struct {
 var intVars = []string{"vi", "wi", "xi"}
 var allVars = []string{"vi", "wi", "xi", "vf", "vs", "va", "vd", "vn", "zz"}
 
-func I(v int64) *Node   { return &Node{K: KInt, I: v} }
-func V(s string) *Node  { return &Node{K: KVar, S: s} }
+func I(v int64) *Node  { return &Node{K: KInt, I: v} }
+func V(s string) *Node { return &Node{K: KVar, S: s} }
 func S(s string, r RNG) *Node {
 	return &Node{K: KStr, S: s, Quote: []byte{'\'', '"'}[r.Intn(2)]}
 }
@@ -286,12 +286,19 @@ func (g *gen) stmts(d, max int) []*Node {
 
 // ---------------------------------------------------------------- canonical forms
 
-func canonR(v Val) string { return canonRd(v, 0) }
+// canonical forms with memoisation per container (shared sub-structure is rendered once,
+// cycles are cut), so that wide DAGs and cyclic values cost linear time
 
-func canonRd(v Val, depth int) string {
-	if depth > 20 {
-		return "..."
-	}
+type canonCtx struct {
+	memo map[any]string
+	on   map[any]bool
+}
+
+func newCanonCtx() *canonCtx { return &canonCtx{memo: map[any]string{}, on: map[any]bool{}} }
+
+func canonR(v Val) string { return newCanonCtx().r(v) }
+
+func (c *canonCtx) r(v Val) string {
 	switch x := v.(type) {
 	case int64:
 		return "i" + strconv.FormatInt(x, 10)
@@ -305,12 +312,29 @@ func canonRd(v Val, depth int) string {
 	case Null:
 		return "n"
 	case *Arr:
+		if s, ok := c.memo[x]; ok {
+			return s
+		}
+		if c.on[x] {
+			return "<cycle>"
+		}
+		c.on[x] = true
 		parts := []string{}
 		for _, e := range x.L {
-			parts = append(parts, canonRd(e, depth+1))
+			parts = append(parts, c.r(e))
 		}
-		return "[" + strings.Join(parts, ",") + "]"
+		delete(c.on, x)
+		s := "[" + strings.Join(parts, ",") + "]"
+		c.memo[x] = s
+		return s
 	case *Dict:
+		if s, ok := c.memo[x]; ok {
+			return s
+		}
+		if c.on[x] {
+			return "<cycle>"
+		}
+		c.on[x] = true
 		keys := []string{}
 		for k := range x.M {
 			keys = append(keys, k)
@@ -318,21 +342,23 @@ func canonRd(v Val, depth int) string {
 		sort.Strings(keys)
 		parts := []string{}
 		for _, k := range keys {
-			parts = append(parts, strconv.Quote(k)+":"+canonRd(x.M[k], depth+1))
+			parts = append(parts, strconv.Quote(k)+":"+c.r(x.M[k]))
 		}
-		return "{" + strings.Join(parts, ",") + "}"
+		delete(c.on, x)
+		s := "{" + strings.Join(parts, ",") + "}"
+		c.memo[x] = s
+		return s
 	case *Fn:
 		return "fn:" + x.Name
 	}
 	return "?"
 }
 
-func canonV(v *ds.VMValue, depth int) string {
+func canonV(v *ds.VMValue, depth int) string { return newCanonCtx().v(v) }
+
+func (c *canonCtx) v(v *ds.VMValue) string {
 	if v == nil {
 		return "NIL"
-	}
-	if depth > 20 {
-		return "..."
 	}
 	switch v.TypeId {
 	case ds.VMTypeInt:
@@ -351,15 +377,32 @@ func canonV(v *ds.VMValue, depth int) string {
 		return "n"
 	case ds.VMTypeArray:
 		a, _ := v.ReadArray()
+		if s, ok := c.memo[a]; ok {
+			return s
+		}
+		if c.on[a] {
+			return "<cycle>"
+		}
+		c.on[a] = true
 		parts := []string{}
 		for _, e := range a.List {
-			parts = append(parts, canonV(e, depth+1))
+			parts = append(parts, c.v(e))
 		}
-		return "[" + strings.Join(parts, ",") + "]"
+		delete(c.on, a)
+		s := "[" + strings.Join(parts, ",") + "]"
+		c.memo[a] = s
+		return s
 	case ds.VMTypeDict:
 		dd, _ := v.ReadDictData()
+		if s, ok := c.memo[dd]; ok {
+			return s
+		}
+		if c.on[dd] {
+			return "<cycle>"
+		}
+		c.on[dd] = true
 		m := map[string]string{}
-		dd.Dict.Range(func(k string, e *ds.VMValue) bool { m[k] = canonV(e, depth+1); return true })
+		dd.Dict.Range(func(k string, e *ds.VMValue) bool { m[k] = c.v(e); return true })
 		keys := []string{}
 		for k := range m {
 			keys = append(keys, k)
@@ -369,11 +412,13 @@ func canonV(v *ds.VMValue, depth int) string {
 		for _, k := range keys {
 			parts = append(parts, strconv.Quote(k)+":"+m[k])
 		}
-		return "{" + strings.Join(parts, ",") + "}"
+		delete(c.on, dd)
+		s := "{" + strings.Join(parts, ",") + "}"
+		c.memo[dd] = s
+		return s
 	case ds.VMTypeFunction:
 		fd, _ := v.ReadFunctionData()
 		return "fn:" + fd.Name
 	}
 	return fmt.Sprintf("t%d", v.TypeId)
 }
-
